@@ -654,7 +654,13 @@ func genOp(r *Rand, p *Profile, sc *h.Scenario, cand []*barGen, client int, nWri
 	case 9:
 		// SetTotal without completing (dynamic totals only)
 		if b.model.Trigger {
-			return h.Op{}, false
+			// once triggering is on the call is valid and ignored: a late size correction, larger or
+			// negative, with or without the complete flag
+			if !r.Bool(0.4) {
+				return h.Op{}, false
+			}
+			op = h.Op{K: h.OpSetTotal, Bar: b.idx, N: []int64{b.model.Total + 1 + r.Int63n(40), -1, b.model.Current}[r.Intn(3)], Flag: r.Bool(0.3)}
+			break
 		}
 		op = h.Op{K: h.OpSetTotal, Bar: b.idx, N: b.model.Current + 1 + r.Int63n(40)}
 	case 10:
